@@ -327,6 +327,9 @@ func (t *Thread) CallContext(def RuntimeContextDef, f func() error) (ctx Runtime
 			}
 			t.closeStack.truncate(h) // No resources to run that, so just discard it.
 			err = termErr
+			// If the limit reached was inherited from the enclosing context,
+			// that context is terminated as well (this panics).
+			t.propagateTermination(ctx, termErr)
 		}
 	}()
 	err = t.cleanupCloseStack(c, h, f())
